@@ -664,6 +664,8 @@ pub fn run(ctx: &Ctx) -> (Acc, Report) {
                     "false-reject" => {
                         let fs = features(&req, &body);
                         match fs.first() {
+                            // several suspicious features at once: attributed after the run to those that fail on their own (below)
+                            Some(_) if fs.len() > 1 => format!("C05/false-reject/several({})", fs.join("+")),
                             Some(f) => format!("C05/false-reject/{f}"),
                             None if get_body => "C05/get-or-head-payload-digest-not-checked".to_owned(),
                             None => format!("C05/false-reject/unclassified({})", mu.kind()),
@@ -687,6 +689,20 @@ pub fn run(ctx: &Ctx) -> (Acc, Report) {
             }
         }
     });
+    // A refused honest request that shows several suspicious features is attributed to the feature(s) that make a request fail
+    // on their own in this very run (requests showing exactly one feature); only if none does is the combination itself new.
+    let several: Vec<String> = acc.findings.keys().filter(|k| k.starts_with("C05/false-reject/several(")).cloned().collect();
+    for k in several {
+        let inner = k.trim_start_matches("C05/false-reject/several(").trim_end_matches(')').to_owned();
+        let alone: Vec<String> = inner.split('+').map(|f| format!("C05/false-reject/{f}")).filter(|fp| acc.findings.contains_key(fp)).collect();
+        if let Some(target) = alone.first() {
+            let f = acc.findings.remove(&k).unwrap();
+            acc.count("refused honest requests with several suspicious features, attributed to the feature that fails on its own", f.count);
+            if let Some(t) = acc.findings.get_mut(target) {
+                t.count += f.count;
+            }
+        }
+    }
     let rep = Report {
         level: "exploration",
         rule: format!("{n_bases} honestly signed base requests (method x 17 paths x 11 query multisets x 10 signed-header shapes x payload/mode x HTTP/1.1|HTTP/2), each with every applicable single-component mutation (each signed header value/name/removal, each query pair, each path byte, method, each body byte, each signature digit, each scope field, dates, provider secret, signed-header list) and 6 canonical-equivalent rewrites; oracle = reference verifier on the same bytes. Distinct by (base, mutation) id; every evaluated case is non-trivial (it reaches signature comparison or a parse refusal)."),
